@@ -60,6 +60,22 @@ SIMD_MODELS = {
 }
 
 
+def _simd_contracts():
+    out = {}
+    for n, ld, st, z in ((16, '_mm_loadu_si128', '_mm_storeu_si128', '_mm_setzero_si128'), (32, '_mm256_loadu_si256', '_mm256_storeu_si256', '_mm256_setzero_si256')):
+        rel = '((unsigned long long)g_k - (unsigned long long)__CPROVER_POINTER_OFFSET(p))'
+        out[ld] = ('struct qx_vec%d qx_%s(const struct qx_vec%d *p)\n  __CPROVER_requires(__CPROVER_r_ok(p, %d))\n  __CPROVER_assigns()\n'
+                   '  __CPROVER_ensures(%s < %d ==> __CPROVER_return_value.b[%s] == ((const unsigned char *)p)[%s]);' % (n, ld, n, n, rel, n, rel, rel))
+        out[st] = ('void qx_%s(struct qx_vec%d *p, struct qx_vec%d v)\n  __CPROVER_requires(__CPROVER_w_ok(p, %d))\n  __CPROVER_assigns(__CPROVER_object_upto(p, %d))\n'
+                   '  __CPROVER_ensures(%s < %d ==> ((const unsigned char *)p)[%s] == v.b[%s]);' % (st, n, n, n, n, rel, n, rel, rel))
+        out[z] = ('struct qx_vec%d qx_%s(void)\n  __CPROVER_requires(1)\n  __CPROVER_assigns()\n'
+                  '  __CPROVER_ensures(%s);' % (n, z, ' && '.join('__CPROVER_return_value.b[%d] == 0' % i for i in range(n))))
+    return out
+
+
+SIMD_CONTRACTS = _simd_contracts()
+
+
 def sanitize(s):
     s = s.strip()
     if s.startswith('Qentem::'):
@@ -1878,7 +1894,10 @@ class Lowerer:
         for nb in sorted(self.need_vec):
             parts.append('struct qx_vec%d { unsigned char b[%d]; };  /* model of the %d-byte SIMD register type */' % (nb, nb, nb))
         for nm in sorted(self.intrinsics):
-            parts.append('/* trusted byte-level model of intrinsic %s */ %s' % (nm, SIMD_MODELS[nm]))
+            if getattr(self, 'simd_contracts', False) and nm in SIMD_CONTRACTS:
+                parts.append('/* trusted contract of intrinsic %s (observed at ghost byte index g_k) */ %s' % (nm, SIMD_CONTRACTS[nm]))
+            else:
+                parts.append('/* trusted byte-level model of intrinsic %s */ %s' % (nm, SIMD_MODELS[nm]))
         parts += self.out_types
         for m in self.glob_order:
             parts.append(self.glob_done[m])
